@@ -419,12 +419,34 @@ func typedNil(c *core.Ctx) {
 			}
 		}
 	}
-	sites, bad := 0, 0
+	sites, bad, otherSites := 0, 0, 0
 	var nonNil func(v ssa.Value, at *ssa.BasicBlock, depth int) (bool, string)
+	// neverNil: every return of a single-result first-party function yields a provably non-nil value
+	neverNilMemo := map[*ssa.Function]bool{}
+	var neverNil func(f *ssa.Function, depth int) bool
+	neverNil = func(f *ssa.Function, depth int) bool {
+		if v, ok := neverNilMemo[f]; ok {
+			return v
+		}
+		neverNilMemo[f] = true // coinductive for recursion
+		res := true
+		for _, b := range f.Blocks {
+			for _, ins := range b.Instrs {
+				if ret, ok := ins.(*ssa.Return); ok && len(ret.Results) == 1 {
+					if ok2, _ := nonNil(ret.Results[0], b, depth+1); !ok2 {
+						res = false
+					}
+				}
+			}
+		}
+		neverNilMemo[f] = res
+		return res
+	}
 	nonNil = func(v ssa.Value, at *ssa.BasicBlock, depth int) (bool, string) {
 		if depth > 8 {
 			return false, "too deep"
 		}
+		callNote := ""
 		switch x := v.(type) {
 		case *ssa.Alloc:
 			return true, "fresh allocation"
@@ -433,6 +455,12 @@ func typedNil(c *core.Ctx) {
 				switch callee.Name() {
 				case "NewError", "errorf":
 					return true, "result of " + callee.Name()
+				}
+				if callee.Pkg == sp && callee.Blocks != nil && callee.Signature.Results().Len() == 1 {
+					if neverNil(callee, depth+1) {
+						return true, "result of " + callee.Name() + " (every return non-nil)"
+					}
+					callNote = "result of " + callee.Name() + ", which may return nil"
 				}
 			}
 		case *ssa.ChangeType:
@@ -517,16 +545,39 @@ func typedNil(c *core.Ctx) {
 				}
 			}
 		}
+		if callNote != "" {
+			return false, callNote
+		}
 		return false, fmt.Sprintf("%T %s", v, v.Name())
 	}
 	for _, f := range fns {
 		for _, b := range f.Blocks {
 			for _, ins := range b.Instrs {
 				mi, ok := ins.(*ssa.MakeInterface)
-				if !ok || !types.Identical(mi.X.Type(), errPtr) {
+				if !ok || !types.IsInterface(mi.Type()) {
 					continue
 				}
-				if !types.IsInterface(mi.Type()) {
+				if !types.Identical(mi.X.Type(), errPtr) {
+					// any other first-party pointer: decided only for direct call results of first-party
+					// functions (a constructor that may return nil, stored in an interface, defeats every
+					// later `!= nil` guard on that interface)
+					call, isCall := mi.X.(*ssa.Call)
+					ptr, isPtr := mi.X.Type().Underlying().(*types.Pointer)
+					if !isPtr || !isCall {
+						continue
+					}
+					if nt, ok := ptr.Elem().(*types.Named); !ok || nt.Obj().Pkg() != sp.Pkg {
+						continue
+					}
+					callee := call.Call.StaticCallee()
+					if callee == nil || callee.Pkg != sp || callee.Blocks == nil || callee.Signature.Results().Len() != 1 {
+						continue
+					}
+					otherSites++
+					if ok2, why := nonNil(mi.X, b, 0); !ok2 {
+						bad++
+						c.Violation(fmt.Sprintf("convert-ctor/%s/%s", f.String(), callee.Name()), call.Pos(), "%s stores the %s returned by %s in an interface (%s): a nil pointer inside a non-nil %s passes every nil guard and is dereferenced later", f.String(), mi.X.Type(), callee.Name(), why, mi.Type())
+					}
 					continue
 				}
 				sites++
@@ -539,6 +590,7 @@ func typedNil(c *core.Ctx) {
 		}
 	}
 	c.Ok("inventory", token.NoPos, "%d *Error -> interface conversion(s) in %d function(s) of package connect, %d not provably non-nil", sites, len(fns), bad)
+	c.Ok("inventory/constructors", token.NoPos, "%d conversion(s) of another first-party constructor's pointer result to an interface, each from a function whose every return is non-nil", otherSites)
 	c.Floor("*Error -> interface conversions", sites, 30)
 }
 
